@@ -357,6 +357,31 @@ def check(ctx):
                     ctx.ok(init, s, f"{pb} defaults to {canon(v)}")
         if not ok:
             ctx.fail(init, init.node, f"omitted {pb} is no longer defaulted from {hb}", construct=f"<missing default of {pb}>")
+    # ------------------------------------------------------------------ R7
+    ctx.rule("R7", "a start on (or numerically at) a finite hard bound is moved strictly inside: x0 is clamped to the effective bounds", floor=1)
+    from ..terms import match_clamp_all
+
+    x0n = vparams[0] if vparams else None
+    moved = []
+    x0names = {x0n}
+    grew = True
+    while grew:
+        grew = False
+        for t, v, s, k in iter_stores(val.node):
+            if isinstance(t, ast.Name) and isinstance(v, ast.Name) and k == "assign" and ((v.id in x0names) != (t.id in x0names)):
+                x0names |= {t.id, v.id}  # the working copy an inlined helper clamps and hands back
+                grew = True
+    for t, v, s, k in iter_stores(val.node):
+        if isinstance(t, ast.Name) and t.id in x0names and isinstance(v, ast.Call):
+            for cv, lo, hi in match_clamp_all(v):
+                if canon(cv) in x0names:
+                    moved.append((s, rename(canon(lo)), rename(canon(hi))))
+    if not moved:
+        ctx.fail(val, val.node, "the validator no longer moves a starting point that lies on a hard bound to the inside (no clamp of x0)", construct="<missing x0 clamp to effective bounds>")
+    for s, lo, hi in moved:
+        ctx.check(lo == "LBEFF" and hi == "UBEFF", val, s, "x0 clamped to [LB_eff, UB_eff]",
+                  f"x0 is clamped to ({lo}, {hi}) instead of the effective (inward-shifted) bounds: a start exactly on a finite hard bound stays on it and the first evaluation is on the boundary",
+                  construct=f"x0 clamp bounds ({lo}, {hi})")
     ctx.assume("after the finiteness validation, isinf and not-isfinite coincide on the bounds (NaN bounds are rejected by the ordering check)")
 
 
